@@ -41,9 +41,16 @@ def gen_cnr(tape, tier, max_chroms=6, size_classes=None, label="cnr"):
     arms = []
     plan_chroms = []
     row = 0
+    # "twins": several chromosomes / arms of identical length (anything keyed on a
+    # table's shape rather than its content is confused only by these)
+    twins = tape.chance(1, 3, label + ".twins")
+    prev_n = None
     for cname in names:
         cls = tape.weighted(size_classes, label + ".sizeclass")
         n = tape.between(1, cls, label + ".nbins") if cls > 2 else cls
+        if twins and prev_n is not None and tape.chance(2, 3, label + ".twin"):
+            n = prev_n
+        prev_n = n
         widths = rng.integers(50, 501, size=n)
         gaps = rng.integers(0, 3001, size=n)
         gaps[rng.random(n) < 0.3] = 0  # abutting bins
@@ -53,6 +60,8 @@ def gen_cnr(tape, tier, max_chroms=6, size_classes=None, label="cnr"):
             hi = n - lo
             if hi > lo:
                 cen = int(rng.integers(lo, hi + 1))
+                if twins and n % 2 == 0 and lo <= n // 2 <= hi:
+                    cen = n // 2  # equal-length arms
                 gaps[cen] = int(rng.integers(2_000_000, 5_000_001))
         pos = int(rng.integers(0, 100_000))
         s = np.empty(n, dtype=np.int64)
